@@ -217,3 +217,18 @@ var (
 	VerifC05LimitsFrag    = limits.Frag
 	VerifC05LimitsPackets = limits.Packets
 )
+
+// VerifC05ClientMux hands a task packet to the client's real default mux (defaultClientMux), the
+// way the event thread does.
+func VerifC05ClientMux(s *Session, n *com.Packet) bool { return defaultClientMux(s, n) }
+
+// VerifC05TakeResults removes every packet from the Session's send queue and returns, for the
+// RvResult packets among them, the Job number and whether the error flag is set.
+func VerifC05TakeResults(s *Session) (jobs []uint16, errs []bool) {
+	for len(s.send) > 0 {
+		if p := <-s.send; p != nil && p.ID == RvResult {
+			jobs, errs = append(jobs, p.Job), append(errs, p.Flags&com.FlagError != 0)
+		}
+	}
+	return
+}
